@@ -690,6 +690,8 @@ def gen_recipe(r, cfg=None, profile="mixed"):
             kh, kw = r.choice([(2, 2), (3, 3), (2, 2), (1, 1), (3, 2), (4, 4), (8, 8)])
             sh, sw = r.choice([(1, 1), (2, 2), (2, 2), (1, 2), (3, 3), (4, 4)])  # stride 4: average pool becomes a convolution
             pad = r.choice(["SAME", "VALID"])
+            if H <= 8 and W <= 8 and r.random() < 0.12:
+                kh, kw = H, W  # a window as large as the feature map: "global" with VALID, several window positions with SAME and a small stride
             if pad == "VALID" and (kh > H or kw > W):
                 pad = "SAME"
             OH, OW = conv_out(H, kh, sh, 1, pad), conv_out(W, kw, sw, 1, pad)
